@@ -19,8 +19,9 @@ def corpus_progs(pid):
     return out
 
 
-def model_agrees(rec):
-    """Correspondence obligations of one run; returns list of texts."""
+def model_agrees(rec, proj=None, final_keys=("cv", "ch", "cc")):
+    """Correspondence obligations of one run; returns list of texts.  With a projection (object classes
+    compared by CTRACEP) values that depend on the interleaving of the uncompared steps are skipped."""
     out = []
     v = rec["V"] or ""
     if rec["X"]:
@@ -29,7 +30,7 @@ def model_agrees(rec):
         out.append("trace not accepted by Model/Conc.v: " + v[:300])
         return out
     d, q = kv(v), kv(rec["Q"])
-    for k in ("cv", "ch", "cc", "st"):
+    for k in final_keys:
         if d[k] != q[k]:
             out.append("final %s: implementation %s, model %s" % (k, q[k], d[k]))
     if canon_vec(d["vec"]) != canon_vec(q["vec"]):
@@ -47,6 +48,8 @@ def model_agrees(rec):
             m = ms[ci] if ci < len(ms) else "<none>"
             if r.startswith("id:") and m.startswith("num:"):
                 continue        # checked by the id judge (uuid5 of the counter)
+            if proj and "cnt" not in proj and r.startswith("num:"):
+                continue        # a counter read: depends on the order of counter steps, which is not compared
             if r.startswith("match:") and m.startswith("match:"):
                 a, b = kv(r[6:].replace(";", " ")), kv(m[6:].replace(";", " "))
                 ta = [x.split("/")[1:] for x in gen.parse_list(a["txs"])]
@@ -60,7 +63,7 @@ def model_agrees(rec):
                 out.append("thread %d call %d: returns %s, model %s" % (tid, ci, r[:100], m[:100]))
     if rec["D"] and rec["DM"] and rec["D"] != "panic":
         dd, dm = kv(rec["D"]), kv(rec["DM"])
-        for k in ("cv", "ch", "cc", "rem", "filled"):
+        for k in tuple(final_keys) + ("rem", "filled"):
             if k in dd and k in dm and dd[k] != dm[k]:
                 out.append("draining match %s: implementation %s, model %s" % (k, dd[k], dm[k]))
     if "iface=1" not in (rec["E"] or ""):
@@ -166,7 +169,8 @@ def explore(line, bound=2, max_runs=3000, batch=200):
 
 
 def run_conc_property(pid, tier, seed, replay, *, judges, classify=None, n_quick=1500, n_thorough=30000,
-                      gen_kw=None, flags="drain,mode=O", corr=True, extra_lines=None, rule="", extra_obligations=None):
+                      gen_kw=None, flags="drain,mode=O", corr=True, extra_lines=None, rule="", extra_obligations=None,
+                      final_keys=("cv", "ch", "cc")):
     """judges: list of (name, fn(rec, prog, info) -> text|None).  classify(text, rec, prog, info) -> 'Kx ...' | None"""
     ck = Check(pid, tier, seed)
     rng = random.Random(seed)
@@ -211,7 +215,8 @@ def run_conc_property(pid, tier, seed, replay, *, judges, classify=None, n_quick
         if len(info.get("steps", [])) > 3 and len(prog["threads"]) >= 2:
             distinct.add((line.split("|", 1)[1].rsplit("|", 2)[0], rec["K"]))
         if corr:
-            for t in model_agrees(rec):
+            pj = [x[5:] for x in flags.split(",") if x.startswith("proj=")]
+            for t in model_agrees(rec, pj[0].split("+") if pj else None, final_keys):
                 corr_bad.append((line, rec["K"], t))
                 break
         if rec["X"]:
